@@ -153,6 +153,7 @@ func run(hist []string) core.Outcome {
 		last = kindOf(evs[len(evs)-1])
 		stat("event/"+last, 1)
 		stat("scenario/"+sc.Name, 1)
+		stat(fmt.Sprintf("depth/%s/%d", sc.Name[:2], len(evs)), 1)
 		for _, c := range coverage(last, before, sh, in, modelBefore, in.iso.gets-getsBefore) {
 			stat("cov/"+c, 1)
 			o.Tags = append(o.Tags, "cov:"+trieKind(sc)+":"+c)
@@ -387,6 +388,7 @@ func main() {
 	forged := map[string]int64{}
 	events := map[string]int64{}
 	perScen := map[string]int64{}
+	perDepth := map[string]int64{}
 	cpu := map[string]int64{}
 	panics := map[string]int64{}
 	preimg := map[string]int64{}
@@ -402,6 +404,8 @@ func main() {
 			preimg[k[len("preimage/"):]] = v
 		case strings.HasPrefix(k, "us/"):
 			cpu[k[3:]] = v / 1000
+		case strings.HasPrefix(k, "depth/"):
+			perDepth[k[6:]] = v
 		case strings.HasPrefix(k, "event/"):
 			events[k[6:]] = v
 		case strings.HasPrefix(k, "scenario/"):
@@ -413,6 +417,7 @@ func main() {
 	r.Extra["trie_branch_hits"] = cov
 	r.Extra["trie_last_event_counts"] = events
 	r.Extra["transitions_per_scenario"] = perScen
+	r.Extra["transitions_per_alphabet_and_depth"] = perDepth
 	r.Extra["worker_time_ms"] = cpu
 	r.Extra["observation_forged_node_panics"] = panics
 	r.Extra["observation_secure_key_preimages_after_commit"] = preimg
